@@ -23,8 +23,11 @@ Init == st = InitState /\ A = AInit /\ h = <<>>
 
 Log(op) == h' = Append(h, op)
 
+\* watermarks the protocol allows: none, or as high as possible - strictly below every
+\* held snapshot, or the visible seqno when no snapshot is held
 WChoices ==
-    {0} \cup (IF st.snaps = {} THEN {st.vis} ELSE {Min(st.snaps) - 1})
+    {0} \cup (IF st.snaps = {} THEN {st.vis}
+             ELSE IF Min(st.snaps) = 0 THEN {} ELSE {Min(st.snaps) - 1})
 
 \* the value written is a function of the seqno, so that an overwritten value always
 \* differs from the one that replaced it without multiplying the branching
@@ -113,6 +116,24 @@ Major ==
          /\ A' = AHazard(A, MergeHazard(st, AllIds(Latest(st).lv), w))
          /\ Log([op |-> "major", split |-> split, w |-> w])
 
+\* compact(Leveled(l0 threshold, table target size)): which payload the real strategy
+\* picks depends on byte sizes the model does not know, so for generation its effect is
+\* any sound payload or nothing; the trace specification checks the choice actually made
+LeveledParams == {<<1, 1>>, <<2, 1>>, <<2, 100>>, <<4, 1000>>}
+Leveled ==
+    /\ "leveled" \in Ops /\ st.seq < MaxSeq
+    /\ LET lv == Latest(st).lv IN
+       \E p \in LeveledParams, w \in WChoices :
+         /\ \/ st' = st
+            \/ \E ids \in SUBSET AllIds(lv), dest \in DestLevels :
+                 /\ ids # {} /\ LegalMerge(st, ids, dest)
+                 /\ st' = OpMerge(st, ids, dest, "none", w)
+            \/ \E ids \in SUBSET AllIds(lv), dest \in DestLevels :
+                 /\ LegalMove(st, ids, dest)
+                 /\ st' = OpMove(st, ids, dest, w)
+         /\ A' = A
+         /\ Log([op |-> "leveled", l0 |-> p[1], ts |-> p[2], w |-> w])
+
 Reopen ==
     /\ "reopen" \in Ops
     /\ st.snaps = {}
@@ -172,7 +193,7 @@ ReleaseSnap ==
          /\ A' = A
          /\ Log([op |-> "release", S |-> S])
 
-Next == Write \/ Batch \/ Rotate \/ Flush \/ Merge \/ Move \/ Major \/ Reopen
+Next == Write \/ Batch \/ Rotate \/ Flush \/ Merge \/ Move \/ Major \/ Leveled \/ Reopen
         \/ OpenSnap \/ ReleaseSnap \/ DropRange \/ Clear \/ Ingest
 
 Spec == Init /\ [][Next]_vars
